@@ -37,6 +37,7 @@ func (c03) Plan(tier string, seed int64) []mon.Workload {
 	}
 	return []mon.Workload{{Name: "programs", N: n}, {Name: "loop-scope", N: int64(len(c03Loops) * len(c03Bodies) * len(c03Vars)), Exhaustive: true},
 		{Name: "branch-table", N: 8 * 16 * 2 * 3, Exhaustive: true},
+		{Name: "switch-chains", N: c03SwitchN(), Exhaustive: true},
 		{Name: "map-iteration", N: n / 10},
 		{Name: "many-locals", N: manyLocalsN(), Exhaustive: true},
 		{Name: "stale-lookup", N: staleLookupN(), Exhaustive: true},
@@ -114,6 +115,70 @@ func c03LoopScope(i int64) progCase {
 // its block is empty - and no later condition is evaluated.
 var c03Falsy = []string{"0", "0.0", "\"\"", "nil", "[]", "{}", "false", "f0"}
 var c03Truthy = []string{"1", "-1", "0.5", "\"x\"", "[0]", "{\"a\": 0}", "true", "f1"}
+
+// switch-chains (exhaustive, v1 and v2): if / elif chains of 1..9 conditions
+// that all compare the SAME subject with a literal (`x == 2`, `2 == x`),
+// over literal sets of one type and of mixed types, for subject values that
+// equal a literal exactly, equal it only through numeric promotion (2.0 and
+// 2, true and 1), or equal none; the subject is a variable or a point key.
+// Exactly the first branch whose condition holds runs, else the else block.
+var c03SwLens = []int{1, 2, 3, 4, 5, 6, 9}
+var c03SwSets = [][]string{
+	{"1", "2", "3", "4", "5", "6", "7", "8", "9"},
+	{"1.0", "2.0", "3.5", "4.0", "5.0", "6.0", "7.0", "8.0", "9.0"},
+	{"\"a\"", "2", "2.0", "true", "nil", "\"2\"", "0", "1", "false"},
+	{"0", "false", "\"\"", "nil", "0.0", "1", "true", "1.0", "\"1\""},
+}
+var c03SwSubjects = []string{"1", "2", "2.0", "4", "4.0", "3.5", "true", "false", "nil", "\"a\"", "\"2\"", "0", "0.0", "9", "9.0", "\"\"", "77", "1.0", "6 / 2", "8 / 2.0"}
+var c03SwForms = []string{"S == L", "L == S", "S == L || false", "(S == L)"}
+
+func c03SwitchN() int64 {
+	return int64(len(c03SwLens) * len(c03SwSets) * len(c03SwSubjects) * len(c03SwForms) * 4)
+}
+
+func c03SwitchChain(i int64) progCase {
+	variant := int(i % 4) // bit 0: with else; bit 1: subject is a point key
+	i /= 4
+	form := c03SwForms[int(i)%len(c03SwForms)]
+	i /= int64(len(c03SwForms))
+	subj := c03SwSubjects[int(i)%len(c03SwSubjects)]
+	i /= int64(len(c03SwSubjects))
+	set := c03SwSets[int(i)%len(c03SwSets)]
+	n := c03SwLens[int(i)/len(c03SwSets)]
+	name := "x"
+	text := "x = " + subj + "\n"
+	if variant&2 != 0 {
+		// the subject is read from the point (no variable of that name)
+		name = "sw"
+		text = "add_key(sw, " + subj + ")\n"
+	}
+	for k := 0; k < n; k++ {
+		kw := "} elif "
+		if k == 0 {
+			kw = "if "
+		}
+		f := form
+		if k == n-1 && form == "S == L || false" {
+			f = "S == L" // only the other conditions have the odd shape
+		}
+		text += kw + strings.NewReplacer("S", name, "L", set[k]).Replace(f) + " {\n  p(\"branch\", " + fmt.Sprint(k) + ")\n"
+	}
+	if variant&1 != 0 {
+		text += "} else {\n  p(\"else\")\n"
+	}
+	text += "}\np(\"end\")\n"
+	text = text + text[strings.Index(text, "\n")+1:] // the chain twice: the second evaluation meets whatever the first left
+	o := drive.Parse("switch-chains", text)
+	if o.Err != nil {
+		panic("c03: switch-chains program does not parse: " + text + ": " + o.Err.Error())
+	}
+	l, err := gt.FromStmts(o.Stmts)
+	if err != nil {
+		panic(err)
+	}
+	st := gt.CloneStmts(l)
+	return progCase{Stmts: st, Src: gt.Print(st, nil), Points: []*ref.Point{ref.NewPoint("m", nil, map[string]any{"f1": int64(1)}, time.Unix(1700000000, 0))}}
+}
 
 func c03BranchTable(i int64) progCase {
 	place := int(i % 3)
@@ -320,6 +385,12 @@ func (k c03) Run(c *mon.Ctx, workload string, i int64) {
 	}
 	if workload == "branch-table" {
 		runV1Compare(c, c03BranchTable(i), "c03.p")
+		return
+	}
+	if workload == "switch-chains" {
+		pc := c03SwitchChain(i)
+		runV1Compare(c, pc, "c03.p")
+		runV2Text(c, "switch-chains", pc.Src)
 		return
 	}
 	if workload == "map-iteration" {
